@@ -118,6 +118,12 @@ def strategy_(draw):
             ops.append(["set", d["name"], val])
         else:
             ops.append([kind])
+    sigp = [d for d in sp["params"] if d.get("grid", "") != ""]
+    if sigp and draw(st.integers(0, 2)) == 0:
+        # the MPC pattern followed by a re-transcription: transcribe, update a per-interval parameter, give the method again
+        d = draw(st.sampled_from(sigp))
+        ncol = d["cols"] * (sp["method"]["N"] + (1 if d["grid"] == "control+" else 0))
+        ops += [["query"], ["set", d["name"], [[draw(gen.small()) for _ in range(ncol)] for _ in range(d["rows"])]], ["remethod"]]
     return {"spec": sp, "ops": ops, "rng": draw(st.integers(0, 2**31 - 1))}
 
 
